@@ -231,7 +231,7 @@ def _transparent(ctx: Ctx, c: Collector) -> None:
     n = 0
     for ci in ctx.prog.subclasses("mosaik.adapters.Adapter"):
         for mname in ("send", "stop"):
-            fi = ci.methods.get(mname)
+            fi = ctx.prog.functions.get(f"{ci.qualname}.{mname}")        # the class's own, or the inherited anchor
             if fi is None:
                 continue
             s = summarise(ctx.prog, fi)
@@ -447,7 +447,30 @@ def _local_init(ctx: Ctx, c: Collector) -> None:
            [e for e in s.of_kind("call") if e.term[1][0] == "attr" and e.term[1][2] == "pop" and e.term[2][:1] == (T.const("time_resolution"),)]
     sends = [e for e in s.of_kind("call") if e.term[1] == ("attr", me, "send")]
     pr = []
-    if not dels:
+    built = False
+    if not dels and sends and sends[0].term[2] and sends[0].term[2][0][0] == "tuple" and len(sends[0].term[2][0][1]) == 3:
+        # the other way round: time_resolution is a parameter of its own (so the **parameters cannot contain it)
+        # and is put into the parameters that are sent exactly for compliant simulators
+        a = fi.node.args
+        kw = a.kwarg.arg if a.kwarg is not None else None
+        own = "time_resolution" in [x.arg for x in a.args + a.kwonlyargs]
+        K = sends[0].term[2][0][1][2]
+        try:
+            k_yes, k_no = T.strip(boolfn.resolve_phi(K, {comp: True})), T.strip(boolfn.resolve_phi(K, {comp: False}))
+        except boolfn.NotBoolean:
+            k_yes = k_no = None
+        if own and kw is not None and k_yes is not None and k_yes[0] == "dict":
+            built = True
+            keys = [k for k, _v in k_yes[1]]
+            if T.const("time_resolution") not in keys or (("star2",), T.var(kw)) not in k_yes[1]:
+                pr.append("a compliant simulator is not sent time_resolution together with its parameters")
+            elif dict((k, v) for k, v in k_yes[1] if k != ("star2",))[T.const("time_resolution")] != T.var("time_resolution"):
+                pr.append("the time_resolution that is sent is not the one that was given")
+            if k_no != T.var(kw):
+                pr.append(f"a simulator whose init() cannot take time_resolution is sent {T.show(k_no)[:80]} instead of just its parameters")
+    if built:
+        pass
+    elif not dels:
         pr.append("time_resolution is never removed for simulators whose init() cannot take it")
     else:
         d = dels[0]
